@@ -83,11 +83,33 @@ def _gen(rng, simple=False):
         method=str(rng.choice(["exact", "expanded"])),
         matching=[1.0, 1.0, 1.0] if rng.integers(0, 3) == 0 else np.exp(rng.uniform(np.log(0.5), np.log(2.0), 3)).tolist(),
         xif2=1.0 if rng.integers(0, 3) == 0 else float(np.exp(rng.uniform(np.log(0.25), np.log(4.0)))),
+        # half of the inputs take the runner's route (theory card -> runcards.masses), which has to hand the
+        # squared matching ratios and xif^2 to the solver
+        via_card=bool(rng.integers(0, 2)),
     )
     return p
 
 
+def _call_via_card(p):
+    """The route the runner takes: a theory card (linear matching ratios, xif) -> eko.io.runcards.masses."""
+    from eko.io import runcards
+    from eko.io.types import EvolutionMethod
+
+    from .. import workload as w
+
+    th = w.raw_theory(
+        order=tuple(p["order"]), alphas=p["alphas"], alphaem=0.007496, ref=(p["mu_ref"], p["nf_ref"]),
+        masses=p["masses"], mass_refs=p["scales"], scheme="MSBAR",
+        ratios=[float(np.sqrt(k)) for k in p["matching"]], xif=float(np.sqrt(p["xif2"])),
+    )
+    card = runcards.TheoryCard.from_dict(th)
+    meth = EvolutionMethod("iterate-exact" if p["method"] == "exact" else "truncated")
+    return np.array(runcards.masses(card, meth))
+
+
 def _call_compute(p):
+    if p.get("via_card"):
+        return _call_via_card(p)
     from eko import msbar_masses
     from eko.quantities.couplings import CouplingEvolutionMethod, CouplingsInfo
     from eko.quantities.heavy_quarks import HeavyQuarkMasses, QuarkMassRef
